@@ -112,6 +112,72 @@ def gen_file(rng, bs, nmsg=None, wild=True, lead=None, final_nl=None, maxlen=Non
     return b"".join(lines), table, lines
 
 
+
+def nul_heavy_files(rng, n_random=6):
+    """valid logs whose first 128 bytes are mostly NUL bytes: a short first dated head line followed by
+    continuation lines of NUL bytes.  blockzero_analysis_bytes rejects a file only when the first
+    min(128, |block zero|) bytes are ALL zero; every file here begins with a timestamp, so it is on the
+    accepted side at every block size >= 64.  Returns [(bytes, table, note)]."""
+    out = []
+
+    def build(first_conts, later=None, t0=0, prefix_msgs=0, bare=False):
+        lines, tab = [], {}
+        t = t0
+        for k in range(prefix_msgs):             # control: ordinary messages first (>= 128 bytes)
+            h = ts(t) + b" |ordinary message number %c with plain text\n" % (97 + k)
+            lines.append(h); tab[h] = instant(t); t += 1
+            lines.append(b" plain continuation line\n")
+        h = ts(t) + (b"\n" if bare else b" |a\n")
+        lines.append(h); tab[h] = instant(t); t += 1
+        lines += first_conts
+        for conts in (later or [[b" tail\n"], [b"\x00" * 7 + b"\n", b"x\n"]]):
+            h = ts(t) + b" |m\n"
+            lines.append(h); tab[h] = instant(t); t += 1
+            lines += conts
+        return b"".join(lines), tab
+
+    # NUL run directly after the first line
+    for k in (65, 66, 80, 104, 105, 200, 700):
+        out.append(build([b"\x00" * k + b"\n"]) + ("nul-run-%d-after-first-line" % k,))
+    # NULs spread over several short continuation lines
+    for r in (1, 3, 7, 12):
+        out.append(build([b"\x00" * r + b"\n"] * (130 // (r + 1) + 2)) + ("nul-spread-lines-of-%d" % r,))
+    # NUL share of the first 128 bytes: 50 %, 51 %, and the largest share a 20/23-byte head line allows
+    for share, bare in ((64, False), (65, False), (66, False), (100, False), (104, False), (107, True)):
+        hl = 20 if bare else 23
+        room = 128 - hl                        # bytes of the first 128 after the head line
+        nul = min(share, room - 1)
+        filler = room - 1 - nul
+        conts = [b"\x00" * nul + b"y" * filler + b"\n", b"after the first bytes\n"]
+        f, tab = build(conts, bare=bare)
+        assert f[:128].count(0) == nul
+        out.append((f, tab, "nul-share-%d-of-128" % nul))
+    # 90 % NUL among the bytes that follow the head line, mixed with other bytes, several lines
+    conts = []
+    for i in range(12):
+        conts.append(bytes(0 if (i * 10 + j) % 10 else 122 for j in range(10)) + b"\n")
+    out.append(build(conts) + ("nul-90pct-after-head-mixed",))
+    # control: the same NUL-heavy message placed later in the file
+    for k in (65, 104, 200):
+        out.append(build([b"\x00" * k + b"\n"], prefix_msgs=3) + ("control-nul-run-%d-later-in-file" % k,))
+    # no final newline, CRLF head, NUL run as the last line
+    f, tab = build([b"\x00" * 90 + b"\n"], later=[[b"\x00" * 40]])
+    out.append((f, tab, "nul-run-and-nul-last-line-without-newline"))
+    # random members of the class
+    for _ in range(n_random):
+        conts, total = [], 0
+        while total < 110:
+            r = rng.choice([1, 2, 5, 9, 17, 33, 64, 70, 104])
+            mix = rng.random() < 0.3
+            l = bytes((0 if rng.random() < 0.85 else rng.choice(PLAIN)) for _ in range(r)) if mix else b"\x00" * r
+            conts.append(l + b"\n"); total += r + 1
+        f, tab = build(conts, t0=rng.randrange(0, 500), bare=rng.random() < 0.3)
+        if f[:128].count(0) >= 65:
+            out.append((f, tab, "nul-heavy-random(%d NUL in first 128)" % f[:128].count(0)))
+    for f, tab, note in out:
+        assert not all(b == 0 for b in f[:64]) and py_printed(f, tab)
+    return out
+
 # ----------------------------------------------------------------------------- python spec
 
 def py_lines(f):
